@@ -4,7 +4,6 @@ import (
 	"archive/zip"
 	"encoding/xml"
 	"errors"
-	"io"
 )
 
 // Container-related errors.
@@ -52,7 +51,7 @@ func parseContainer(zr *zip.Reader) (string, error) {
 	}
 	defer rc.Close()
 
-	data, err := io.ReadAll(rc)
+	data, err := readPart(rc)
 	if err != nil {
 		return "", err
 	}
